@@ -239,11 +239,7 @@ def judge(entry, text, kind, expect_line, root):
             if fr.filename.endswith("parser.py") or "/behave/" in fr.filename:
                 where = "%s:%s" % (os.path.basename(fr.filename), fr.name)
                 break
-        if entry in ("rule", "scenario", "steps", "tags"):
-            # variant entry points: one fingerprint per (entry point, exception class)
-            key = "%s:%s" % (entry, type(e).__name__)
-        else:
-            key = "%s:%s@%s" % (entry, type(e).__name__, where)
+        key = "%s:%s@%s" % (entry, type(e).__name__, where)
         return V("C05", "foreign-exception", key, entry=entry, fault=kind, where=where, error=str(e)[:200])
     finally:
         dt = time.time() - t0
